@@ -300,21 +300,23 @@ def nameLe (a b : Name) : Bool := !(decide (b < a))
 
 def ready (s : Schema) (created : List Name) (t : Name) : Bool := (parents s t).all (created.contains ·)
 
-/-- the `while tables_to_create:` loop of `order_tables_to_create`; `acc` is both `tables` and `created_tables` -/
-def orderLoop (s : Schema) : Nat → List Name → List Name → List Name
-  | 0, _, acc => acc
-  | fuel + 1, todo, acc =>
-    match todo.find? (ready s acc) with
-    | some t => orderLoop s fuel (todo.erase t) (acc ++ [t])
+/-- the `while tables_to_create:` loop of `order_tables_to_create`: `created` is `created_tables`, `acc` is `tables`.
+    A table taken by the `else: table = tables_to_create.pop()` branch is appended to `tables` but is NOT added to
+    `created_tables`, so tables that depend on it are never "ready" and are popped as well. -/
+def orderLoop (s : Schema) : Nat → List Name → List Name → List Name → List Name
+  | 0, _, _, acc => acc
+  | fuel + 1, todo, created, acc =>
+    match todo.find? (ready s created) with
+    | some t => orderLoop s fuel (todo.erase t) (created ++ [t]) (acc ++ [t])
     | none =>
       match todo.getLast? with
-      | some t => orderLoop s fuel todo.dropLast (acc ++ [t])   -- `else: table = tables_to_create.pop()`
+      | some t => orderLoop s fuel todo.dropLast created (acc ++ [t])
       | none => acc
 
 /-- `DBSchema.order_tables_to_create` (names of the tables in creation order) -/
 def orderTablesToCreate (s : Schema) : List Name :=
   let sorted := (tableNames s).mergeSort nameLe
-  orderLoop s sorted.length sorted []
+  orderLoop s sorted.length sorted [] []
 
 /-- commands of `generate_create_script` as abstract objects -/
 inductive Cmd
@@ -332,8 +334,8 @@ def objectsToCreate (d : Dialect) (s : Schema) (created : List Name) (t : Name) 
   -- `for child_table in table.child_tables` iterates a Python set: order unspecified, the model uses name order
   let children := ((tableNames s).filter (fun c => c != t && (parents s c).contains t && created.contains c)).mergeSort nameLe
   let fromChildren := children.flatMap (fun c => sortByName (fun f => f.name.getD []) ((tableFks s c).filter (fun f => f.parent == t)))
-  [Cmd.table t] ++ idx.map (fun ix => Cmd.index t (ix.name.getD []))
-    ++ (if namedForeignKeys d then (own ++ fromChildren).map (fun f => Cmd.fk f.table (f.name.getD [])) else [])
+  Cmd.table t :: (idx.map (fun ix => Cmd.index t (ix.name.getD []))
+    ++ (if namedForeignKeys d then (own ++ fromChildren).map (fun f => Cmd.fk f.table (f.name.getD [])) else []))
 
 def createLoop (d : Dialect) (s : Schema) : List Name → List Name → List Cmd
   | [], _ => []
